@@ -447,7 +447,10 @@ def s_alloc(F, R):
                 n += 1
                 size = strip(x["args"][-1])
                 s = pp(size)
-                ok = s in ("(data_len as usize)", "remaining_len", "common::poll::PollHeader::remaining_len(&header)")
+                ok = s in ("(data_len as usize)", "remaining_len", "common::poll::PollHeader::remaining_len(&header)") or \
+                    (size.get("k") == "Call" and size["fn"].get("name") == "from" and size.get("ty") == "usize" and
+                     (size["args"][0].get("ty") or "").lstrip("&") in ("u16", "u8")) or \
+                    (size.get("k") == "Cast" and size.get("ty") == "usize" and size.get("from_ty") in ("u16", "u8"))
                 R.check(ok, "S-alloc", "%s/%s" % (f["root"], d.rsplit("::", 1)[1]),
                         "%s allocates %s bytes: not a u16 length or a remaining length" % (f["root"], s), where=loc(x))
     R.floor("S-alloc", "allocation sites", n, 5)
